@@ -230,6 +230,8 @@ def match_known(prop, clause, op, known, tr=""):
             continue
         if k.get("clause") not in (None, clause):
             continue
+        if k.get("clause_prefix") and not str(clause).startswith(k["clause_prefix"]):
+            continue
         if k.get("trace_prefix") and not str(tr).startswith(k["trace_prefix"]):
             continue
         m = k.get("match", {})
